@@ -86,13 +86,19 @@ func init() {
 		func(w *CliWorld, r *RunResult) { r.Nontrivial = c18ClientNontrivial(w) }))
 	register(cliFamily("C18", "c18-client-bad", 1, GenC18ClientBad, c18ClientOnline, c18ClientFinal,
 		func(w *CliWorld, r *RunResult) { r.Nontrivial = len(w.Streams) > 0 }))
+	register(cliFamily("C14", "c14-client", 2, GenC14Client, c14ClientOnline, c14ClientFinal,
+		func(w *CliWorld, r *RunResult) { r.Nontrivial = c14ClientNontrivial(w) }))
+	register(cliFamily("C14", "c14-client-cancel", 1, GenC14ClientCancel, c14ClientOnline, c14ClientFinal,
+		func(w *CliWorld, r *RunResult) { r.Nontrivial = c14ClientNontrivial(w) }))
+	register(cliFamily("C14", "c14-client-pad-empty", 1, GenC14ClientPadEmpty, c14ClientOnline, c14ClientFinal,
+		func(w *CliWorld, r *RunResult) { r.Nontrivial = c14ClientNontrivial(w) }))
 	register(cliFamily("C07", "c07", 1, GenC07, c07Online, c07Final,
 		func(w *CliWorld, r *RunResult) { r.Nontrivial = c07Nontrivial(w) }))
 	register(cliFamily("C02", "c02-split", 1, GenC02Split, nil, func(w *CliWorld) *Violation { return c02Final(w, "C02") },
 		func(w *CliWorld, r *RunResult) { r.Nontrivial = c02Nontrivial(w) }))
 	register(cliFamily("C02", "c02", 4, GenC02, nil, func(w *CliWorld) *Violation { return c02Final(w, "C02") },
 		func(w *CliWorld, r *RunResult) { r.Nontrivial = c02Nontrivial(w) }))
-	register(srvFamily("C14", "c14-server", 1, GenC14, c14Online, c14Final,
+	register(srvFamily("C14", "c14-server", 2, GenC14, c14Online, c14Final,
 		func(w *SrvWorld, r *RunResult) { r.Nontrivial = c14Nontrivial(w) }))
 	register(&Family{Prop: "C13", Name: "c13", Weight: 1,
 		Gen: func(r *RNG) any { return GenC13(r) },
